@@ -256,7 +256,8 @@ def run(ctx):
             for i, e in enumerate(p.ev):
                 if e[0] == "closure":
                     nxt = [x for x in p.ev[i + 1:i + 2] if x[0] == "call"]
-                    if nxt and strip_generics(nxt[0][1]).endswith("Iterator::filter"):
+                    # `.into_iter().filter(p).collect()` and `.retain(p)` keep the same elements
+                    if nxt and strip_generics(nxt[0][1]).endswith(("Iterator::filter", "Vec::retain")):
                         applied.append(cl_desc.get(e[1], "OTHER:" + e[1].split("::")[-1]))
             other = {}
             for e in p.ev:
